@@ -34,7 +34,7 @@ PROFILES = {
     'identity-heavy': gen.Profile(w_atom=1, w_pred=8, w_ident=7, w_neg=4, w_assert=0, w_bin=3, w_modal=2, w_quant=1, max_depth=2,
                                   preds=((1, 0, 2), (0, 0, 1), (2, 0, 3)), consts=(A.const(0), A.const(1), A.const(2))),
     'quant-heavy': gen.Profile(w_atom=2, w_pred=7, w_ident=1, w_neg=3, w_assert=0, w_bin=5, w_modal=2, w_quant=8, max_depth=3,
-                               consts=(A.const(1), A.const(0))),
+                               consts=(A.const(3), A.const(0, 1))),
 }
 
 
